@@ -149,6 +149,10 @@ class ListWrapper(typing.MutableSequence[T]):
         return len(self._data)
 
     def insert(self, i: int, v: T) -> None:
+        # Let the built-in list reject an unusable index (not an integer,
+        # too large) before the hook runs, so that a failed insert changes
+        # nothing.
+        [].insert(i, v)
         self._add(v)
         return self._data.insert(i, v)
 
